@@ -169,6 +169,30 @@ def d4_labels(ctx):
     okm = bool(modes) and const_value(kwarg(modes[0], "axis")) == (True, 1) and loc_name(modes[0].args[0]) == "channel_labels"
     ctx.check(okm, fc, modes[0] if modes else fc.node, modes[0] if modes else "mode", "file labels are the per-channel mode over batches", "file labels are not scipy.stats.mode(channel_labels, axis=1)",
               key="mode")
+    # the matrix has exactly as many columns as batches are scanned (an unfilled column is a column of zeros = "clear" votes)
+    duc = DefUse(fc.node)
+    alloc = [d for d in duc.defs if d.var == "channel_labels" and d.kind == "assign" and isinstance(d.value, ast.Call) and call_name(d.value) in ("zeros", "full", "empty")]
+    loops = [n for n in walk_function(fc.node) if isinstance(n, ast.For) and "linspace" in src(n.iter)]
+    okn = False
+    detail = "allocation or batch loop not found"
+    if alloc and loops:
+        shp = alloc[0].value.args[0]
+        width = shp.elts[1] if isinstance(shp, (ast.Tuple, ast.List)) and len(shp.elts) == 2 else None
+        ls = [c for c in find(loops[0].iter, ast.Call) if call_name(c) == "linspace"]
+        count = ls[0].args[2] if ls and len(ls[0].args) >= 3 else (kwarg(ls[0], "num") if ls else None)
+        if width is not None and count is not None:
+            wn, cn = loc_name(width), loc_name(count)
+            if wn and cn:
+                dw = {d.idx for d in duc.reaching(wn, alloc[0].stmt)}
+                dc = {d.idx for d in duc.reaching(cn, loops[0])}
+                okn = wn == cn and dw == dc
+                detail = f"columns = {wn} (defs at lines {sorted(duc.defs[i].lineno for i in dw)}), batches = {cn} (defs at lines {sorted(duc.defs[i].lineno for i in dc)})"
+            else:
+                okn = norm(width) == norm(count)
+                detail = f"columns = {src(width)}, batches = {src(count)}"
+    ctx.check(okn, fc, loops[0] if loops else fc.node, detail, "one column per scanned batch",
+              f"the label matrix and the batch loop disagree on the number of batches ({detail}): columns no batch fills stay 0 ('clear') and vote in the mode - "
+              "on short recordings real faults are out-voted", key="batch-count")
     # column i of channel_labels receives batch i's labels
     st2 = [n for n in walk_function(fc.node) if isinstance(n, ast.Assign) and isinstance(n.targets[0], ast.Tuple) and "channel_labels" in src(n.targets[0])]
     okc = bool(st2) and norm(st2[0].targets[0].elts[0]) == norm(ast.parse("channel_labels[:, i]", mode="eval").body)
